@@ -18,6 +18,8 @@ INFO = {
              "(thorough) symbols over a 15-symbol alphabet incl. multi-byte and invalid UTF-8; the same keys plus seeded "
              "random keys are run through otelstorage.KeyToLabel and every observed result is validated by TLC against "
              "the specification (Trace_Sanitize).",
+             " Each key is also put on a container of the fake daemon as a Docker label and the container must be the one selected by "
+             "{sanitised(key)=\"v\"} through the Docker-backed storage.",
         note="Trusts the transcription of Go's UTF-8 range decoding (Utf8.tla) and TLC; bounded alphabet/length + random longer keys; empty key left open.",
         ref="6/C20"),
     "C03": dict(
@@ -28,6 +30,7 @@ INFO = {
              "with 5 read-size patterns, plus seeded random streams, and each recorded execution is validated by TLC "
              "(Trace_Decoder): records byte- and nanosecond-exact, in order, prefix up to the fault, error iff the fault is an "
              "error kind, and the error stays reported when the iterator is polled again.",
+             " Every case is also run with a second, healthy container selected beside the observed one (its failure is still the query's failure).",
         note="Trusts time.Format for RFC3339Nano text, the fake daemon's transport, TLC; bounded frames + random larger streams.",
         ref="6/C03"),
     "C04": dict(
@@ -64,8 +67,10 @@ INFO = {
              "capability set of bounded pools; every case runs through Engine.Eval over an in-memory storage under several "
              "capability configurations together with seeded random record sets and pipelines, and TLC validates each recorded run: "
              "bag of entries = LogResult (each matching record once, none else, original timestamp and line, final labels), the "
-             "storage's own answer being checked as an environment step.",
-        note="Stage semantics are those of Pipeline.tla/Num.tla/Regex.tla (sub-grammars for numbers, durations, byte sizes, regexes); values outside them make a scenario open (not compared).",
+             "storage's own answer being checked as an environment step. ip(\"...\") line and label filters on IPv4 (MC_Ip: patterns x "
+             "addresses around their edges, prefix containment against the network..broadcast interval, the line scanner) and the regexp "
+             "stage are part of the stage semantics.",
+        note="Stage semantics are those of Pipeline.tla/Num.tla/Regex.tla/Ip.tla (sub-grammars for numbers, durations, byte sizes, regexes with anchors and groups, IPv4); values outside them (IPv6, lines with ':' or a-f under ip()) make a scenario open (not compared).",
         ref="6/C01"),
     "C08": dict(
         text="TLC checks the limit guard and groupEntries (stream map keyed by the canonical sorted+quoted label rendering) on every "
@@ -103,8 +108,10 @@ INFO = {
              "aggregators per key, bounded heap for topk/bottomk) with the declarative level-by-level meaning for every bounded input "
              "vector, operator, clause and nesting to depth three; each case is turned into logs producing that input vector and evaluated "
              "by Engine.Eval (instant and range), random larger cases added, and TLC validates every returned series/value (choices among "
-             "topk ties allowed, counts and must-members enforced, sort order checked on instant vectors).",
-        note="Values as exact rationals (stddev via its square); tie-breaking left open.",
+             "topk ties allowed, counts and must-members enforced, sort order checked on instant vectors). MC_TopK drives the bounded heap "
+             "with every arrival order of 6 / 7 distinct values for every k (the heap holds the k best, its root is the worst of them); its "
+             "cases are evaluated repeatedly because the arrival order in the code is Go's map order.",
+        note="Values as exact rationals (stddev via its square); tie-breaking left open; map iteration orders sampled by repetition.",
         ref="6/C11"),
     "C12": dict(
         text="TLC compares the implementation-shaped binary-operation iterators (left map + right walk, key-set merges, literal side) "
@@ -143,7 +150,7 @@ INFO = {
              "malformed constructions, unpack, logfmt quoting, pattern) run through Engine.Eval and TLC validates count, line and label "
              "set of every returned entry against the document (the ground truth), with explicitly open spots for nested values, "
              "malformed prefixes and missing paths.",
-        note="Ground truth is the document carried by the case; regexp stage not modelled; error detail text left open.",
+        note="Ground truth is the document carried by the case; regexp stage: named groups of the leftmost-first match (MC_Regexp checks the backtracking order Prio against the set-valued Ends; repetition bodies consume at least one byte; a group that took no part is left optional); error detail text left open.",
         ref="6/C06"),
     "C07": dict(
         text="TLC checks the rewriting stages' laws on every small label set (rename moves and removes, keep/drop complement, template "
